@@ -307,9 +307,10 @@ func TypesWith(c explore.Chooser, opt TypesOpt) *prog.Program {
 		subSlot = fmt.Sprintf("\t%s %s %s\n", slotName, strings.ReplaceAll(slot.typ, "subpkg.", ""), slotTag)
 	}
 	if slotFirst {
-		fmt.Fprintf(&sub, "type Info struct {\n%s\tLabel string\n\tKind  Kind\n}\n\n", subSlot)
+		fmt.Fprintf(&sub, "type Info struct {\n%s\tnote  string\n\tLabel string\n\tKind  Kind\n}\n\n", subSlot)
 	} else {
-		fmt.Fprintf(&sub, "type Info struct {\n\tLabel string\n\tKind  Kind\n%s}\n\n", subSlot)
+		// (an unexported field comes first: what is built from the list of fields must skip it cleanly)
+		fmt.Fprintf(&sub, "type Info struct {\n\tnote  string\n\tLabel string\n\tKind  Kind\n%s}\n\n", subSlot)
 	}
 	if second == "same-name-in-sub" {
 		sub.WriteString(subShapeWrapper)
